@@ -428,6 +428,75 @@ def _ty_spec(cfg, i, path):
     return verdict == 'accepted' and type(got) is T and got == want and type(again) is T and again == got
 
 
+# ------------------------------------------------------------------ ArrayConverter.validate: the items of an array attribute have the declared item type
+class _Idx(object):
+    def __index__(self): return 4
+
+_AR_ITEMS = {'ints': [1, 0, -7], 'ints with a bool': [1, True], 'strs': ['a', ''], 'floats': [1.5, -0.0], 'ints and floats': [1, 2.5], 'a str among ints': [1, 'x', 3], 'an int among strs': ['a', 5],
+             'a float among ints': [1, 2.5], 'None inside': [1, None], 'an __index__ object': [_Idx()], 'an __index__ object among strs': ['a', _Idx()], 'empty': [], 'a nested list': [[1]], 'bytes': [b'a']}
+_AR_GIVEN = ('plain list', 'tuple', 'tracked array of this attribute of this object', 'tracked array of another attribute of this object', 'tracked array of the same attribute of another object',
+             'a single value that is not a sequence')
+
+
+def _ar_configs(tier):
+    return [dict(item_type=t, items=k, given=g, with_object=w) for t in ('int', 'str', 'float') for k in _AR_ITEMS for g in _AR_GIVEN for w in (True, False)
+            if w or g in ('plain list', 'tuple', 'a single value that is not a sequence')]
+
+
+class _ArObj(object):
+    def __init__(self): self.changed = []
+    def _attr_changed_(self, attr): self.changed.append(attr)
+
+
+def _ar_case(cfg, values):
+    def call():
+        from pony.orm import ormtypes as ot
+        T = {'int': int, 'str': str, 'float': float}[cfg['item_type']]
+        AT = {int: ot.IntArray, str: ot.StrArray, float: ot.FloatArray}[T]
+        attr = Bag(py_type=AT, name='this', args=(), kwargs={}, nullable=False); other_attr = Bag(py_type=AT, name='other', args=(), kwargs={}, nullable=False)
+        conv = object.__new__(dp.ArrayConverter); conv.attr = attr; conv.py_type = AT; conv.provider = Bag(dialect='SQLite')
+        conv.item_converter = dp.ArrayConverter.array_types[T][1]
+        obj = _ArObj() if cfg['with_object'] else None; obj2 = _ArObj()
+        items = list(_AR_ITEMS[cfg['items']]); g = cfg['given']
+        if g == 'plain list': val = list(items)
+        elif g == 'tuple': val = tuple(items)
+        elif g == 'a single value that is not a sequence':
+            if not items: return ('skipped',)
+            val = items[0]; items = [val]
+            if hasattr(val, '__len__') and not isinstance(val, str): return ('skipped',)
+        else:
+            owner, a = {'tracked array of this attribute of this object': (obj, attr), 'tracked array of another attribute of this object': (obj, other_attr),
+                        'tracked array of the same attribute of another object': (obj2, attr)}[g]
+            val = ot.TrackedArray.__new__(ot.TrackedArray); list.__init__(val, items); val.obj_ref = __import__('weakref').ref(owner); val.attr = a; val.item_type = T      # as if it had got there unvalidated
+        st = cur().state; st.update(val=val, obj=obj, attr=attr, items=items, keep=(obj, obj2))
+        try: got = conv.validate(val, obj)
+        except TypeError: return ('rejected',)
+        return ('accepted', got)
+    return Case(call, {}, [])
+
+
+def _ar_spec(cfg, i, path):
+    if path.outcome != 'ret': return False
+    r = path.value; st = path.state
+    if r[0] == 'skipped': return True
+    T = {'int': int, 'str': str, 'float': float}[cfg['item_type']]
+    items = st['items']
+    def ok(v):                                                       # the declared item type; an object with __index__ stands for its integer in a numeric array
+        if T is str: return isinstance(v, str)
+        if isinstance(v, (int, float) if T is float else int): return True
+        return hasattr(v, '__index__')
+    if cfg['given'] == 'tracked array of this attribute of this object':
+        if r[0] == 'accepted' and r[1] is st['val']: return True      # the documented shortcut: the attribute's own array (obj.attr += [...]) was validated item by item when it was filled
+    if not all(ok(v) for v in items): return r[0] == 'rejected'
+    if r[0] != 'accepted': return False
+    got = r[1]
+    want = [v if isinstance(v, (int, float, str)) else v.__index__() for v in items]
+    if list(got) != want or [type(a) for a in got] != [type(b) for b in want]: return False
+    if st['obj'] is None: return type(got) is list
+    # a tracked array of THIS attribute of THIS object, and a fresh one: not the container another attribute or another object holds
+    return type(got).__name__ == 'TrackedArray' and got.attr is st['attr'] and got.obj_ref() is st['obj'] and got is not st['val']
+
+
 from contracts import c08_rawkeys as RK
 
 CONTRACTS = [
@@ -458,6 +527,8 @@ CONTRACTS = [
                                            'pony.orm.dbapiprovider:UuidConverter.validate', 'pony.orm.dbapiprovider:ConverterWithMicroseconds.round_microseconds_to_precision'],
              _ty_configs, _ty_case, [('accepted_value_has_exactly_the_declared_type_and_the_documented_normal_form', _ty_spec)], level='bounded',
              bound='7 converters x 5 - 9 candidate values each (right type, subclass, text, wrong types) x precisions 0 / 3 / 6 where they apply'),
+    Contract('ArrayConverter.validate', ['pony.orm.dbapiprovider:ArrayConverter.validate'], _ar_configs, _ar_case,
+             [('items_have_the_declared_item_type_and_the_result_belongs_to_this_attribute', _ar_spec)]),
     Contract('raw_key_values_for_relationships', ['pony.orm.core:EntityMeta._get_by_raw_pkval_', 'pony.orm.core:Attribute.validate', 'pony.orm.core:EntityMeta._normalize_args_' if hasattr(core.EntityMeta, '_normalize_args_') else 'pony.orm.core:Attribute.validate'],
              RK.configs, RK.case, [('raw_key_validated_like_the_key_attribute_it_stands_for', RK.spec)], level='bounded', bound=RK.BOUND),
 ]
